@@ -104,6 +104,27 @@
       of that name is NOT found: `AttributeError`); `object.__setattr__(self, n, v)` is `Expr.outside`: not modelled, an error;
     * `self._ensureHtmlAttribute()` is a parameter (`Ctx.selfMeth`): it writes the attribute store of the tag the style
       belongs to, not the style object (the translator checks its exact body).
+
+  Extension for the parsers' tag handlers (`Parser.AdvancedHTMLParser.handle_endtag`, `Validator.ValidatingAdvancedHTMLParser.
+  handle_endtag` / `handle_starttag`; the ties are `Props/C02Code.lean`, `Props/C13Code.lean`).  Further assumptions:
+
+    * the receiver is `obj fields` (the translator checks that the class defines no `__getattr__` / `__getattribute__` /
+      `__setattr__` and that no class-level name hides a field the method uses); `x = self.f` (`Stmt.alias`) may also stand directly
+      inside a `try:` at the top level of the body; `x.pop()` through such a second name is `Stmt.refCall` (`list.pop()`: the list
+      without its last item, `IndexError` on an empty list);
+    * the items of the list of open elements are elements identified by a number (`PyV.ancestor u`); `l[i].a` (`Expr.elemAttr`:
+      the translator emits it for an attribute of a subscript of the aliased list, for the attribute names it is told) is
+      `Ctx.elemAttr u a`, a parameter: the methods only read it;
+    * `range(n)` is the tuple of the numbers `0 … n-1`; the translator accepts it as the iterable of a `for` only;
+    * `[e for x in l]` (`Expr.compFor`) over a list: `e` for the items in order, `x` bound in an environment of its own;
+    * `x op= e` on a local variable is dumped as `x = x op e` (`+ - *` give numbers and texts only here: no in-place variant);
+    * instantiating a library exception class gives `excInst` of its name, the arguments evaluated and dropped: the constructors
+      of `exceptions.py` are taken to return normally;
+    * `Val.pairs`: a Python list of 2-tuples of model values (the attribute list of `handle_starttag`); `for (a, b) in x`
+      (`Stmt.forPair`) over a VARIABLE holding one binds both names per item and checks after every iteration that the variable
+      still holds the list; a plain `for` over it yields the 2-tuples;
+    * `return Base.m(self, args)` (`Stmt.retBase`) is `Ctx.baseMeth m`, a parameter like `Ctx.meths`: what the base class's method
+      does to the object and returns (the translator checks the single base class and where it is imported from).
 -/
 import AHP.Model.Basic
 import AHP.Model.Conv
